@@ -224,6 +224,25 @@ func HarnessC07EarlierContexts() {
 		defer cancel2()
 		ctx2 = c
 	}
+	if verifrt.Bool() {
+		// the later invocation is a Call of a function defined by the first one
+		hObj, herr := machine.Get("h")
+		verifrt.Assert(herr == nil, "function-of-first-invocation-available")
+		if herr != nil {
+			return
+		}
+		hFn, isFn := hObj.(*object.Function)
+		if !isFn {
+			return // the first invocation was cancelled before it defined h
+		}
+		res, cerr := machine.Call(ctx2, hFn, []object.Object{object.NewInt(a)})
+		verifrt.Assert(cerr == nil, "later-call-is-not-cut-short")
+		if cerr == nil {
+			iv, isInt := asInt(res)
+			verifrt.Assert(isInt && iv == a+1, "later-call-returns-its-own-value")
+		}
+		return
+	}
 	err := machine.RunCode(ctx2, second)
 	verifrt.Assert(err == nil, "later-invocation-is-not-cut-short")
 	if err == nil {
